@@ -331,7 +331,7 @@ func TestC16(t *testing.T) {
 	_ = flag.Set("rapid.steps", "10")
 	stCfg := gen.StateCfg{D: gen.Small, JSON: true, Top: true}
 	paths := gen.AllPaths(stCfg)
-	check(t, 0, budget(500, 6000), func(rt *rapid.T) {
+	check(t, 0, budget(2000, 16000), func(rt *rapid.T) {
 		w := &c16World{lib: ast.NewKnowledgeLibrary(), model: newC16Model(), soloCache: map[string][]c07Outcome{}}
 		for i := 0; i < 2; i++ {
 			w.states = append(w.states, gen.SeededState(rapid.Uint64Range(0, 1<<16).Draw(rt, "state_seed"), stCfg))
@@ -376,9 +376,28 @@ func TestC16(t *testing.T) {
 				rt.Fatalf("C16 violated: %s (replay %s)", msg, path)
 			}
 		}
+		// histories that matter revisit the same knowledge base and the same names: the first knowledge
+		// base is preferred, and removals prefer names that are active in the model
+		pickKB := func(rt *rapid.T) int {
+			if rapid.IntRange(0, 2).Draw(rt, "kb_first") > 0 {
+				return 0
+			}
+			return rapid.IntRange(0, len(c16KBs)-1).Draw(rt, "kb")
+		}
+		pickName := func(rt *rapid.T, kb int) string {
+			var act []string
+			for n := range w.model.active[kb] {
+				act = append(act, n)
+			}
+			sort.Strings(act)
+			if len(act) > 0 && rapid.IntRange(0, 3).Draw(rt, "name_active") > 0 {
+				return act[rapid.IntRange(0, len(act)-1).Draw(rt, "active_name")]
+			}
+			return namePool[rapid.IntRange(0, len(namePool)-1).Draw(rt, "name")]
+		}
 		rt.Repeat(map[string]func(*rapid.T){
 			"build": func(rt *rapid.T) {
-				kb := rapid.IntRange(0, len(c16KBs)-1).Draw(rt, "kb")
+				kb := pickKB(rt)
 				n := rapid.IntRange(1, 3).Draw(rt, "nrules")
 				var rules []*gast.Rule
 				for i := 0; i < n; i++ {
@@ -394,8 +413,8 @@ func TestC16(t *testing.T) {
 				step(c16Op{Op: "build", KB: kb, Rules: gast.EncodeRules(rules)})
 			},
 			"removeFromLibrary": func(rt *rapid.T) {
-				kb := rapid.IntRange(0, len(c16KBs)-1).Draw(rt, "kb")
-				name := namePool[rapid.IntRange(0, len(namePool)-1).Draw(rt, "name")]
+				kb := pickKB(rt)
+				name := pickName(rt, kb)
 				if w.model.active[kb][name] != nil {
 					removedCount[fmt.Sprint(kb, name)]++
 					if removedCount[fmt.Sprint(kb, name)] >= 2 {
@@ -405,8 +424,8 @@ func TestC16(t *testing.T) {
 				step(c16Op{Op: "removeFromLibrary", KB: kb, Name: name})
 			},
 			"removeFromBlueprint": func(rt *rapid.T) {
-				kb := rapid.IntRange(0, len(c16KBs)-1).Draw(rt, "kb")
-				name := namePool[rapid.IntRange(0, len(namePool)-1).Draw(rt, "name")]
+				kb := pickKB(rt)
+				name := pickName(rt, kb)
 				if w.model.active[kb][name] != nil {
 					removedCount[fmt.Sprint(kb, name)]++
 					if removedCount[fmt.Sprint(kb, name)] >= 2 {
@@ -416,16 +435,17 @@ func TestC16(t *testing.T) {
 				step(c16Op{Op: "removeFromBlueprint", KB: kb, Name: name})
 			},
 			"removeFromInstance": func(rt *rapid.T) {
-				kb := rapid.IntRange(0, len(c16KBs)-1).Draw(rt, "kb")
-				name := namePool[rapid.IntRange(0, len(namePool)-1).Draw(rt, "name")]
+				kb := pickKB(rt)
+				name := pickName(rt, kb)
 				step(c16Op{Op: "removeFromInstance", KB: kb, Name: name})
 			},
 			"storeLoad": func(rt *rapid.T) {
-				kb := rapid.IntRange(0, len(c16KBs)-1).Draw(rt, "kb")
+				kb := pickKB(rt)
 				if len(w.model.removed[kb]) > 0 {
 					flags["storeload_after_remove"] = true
 				}
-				step(c16Op{Op: "storeLoad", KB: kb, Overwrite: rapid.IntRange(0, 3).Draw(rt, "overwrite") > 0})
+				// overwrite=false leaves the stored-from knowledge base in the library (the load is refused)
+				step(c16Op{Op: "storeLoad", KB: kb, Overwrite: rapid.Bool().Draw(rt, "overwrite")})
 			},
 		})
 	})
